@@ -11,10 +11,10 @@ Everything is derived from the clang AST of the engine TUs; only the property's 
   scene_access    every syntactic access to the tracked mjvScene fields with its context (store / element store /
                   alias / pass / address / read): the input of R-WHO-WRITES
   pairing         typestate per pointer variable over all paths of every caller: Idle -acquire-> U -test-> H|N,
-                  H -release-> R;  release needs H (never U, N, R or Idle); H may end only in a release or in an
-                  explicit jump out of the iteration/function (`continue`/`break`/early `return`: the slot is abandoned and
-                  re-initialised by the next acquire);  reaching the end of the loop body / function, or re-acquiring into
-                  the same variable while H, loses a geom
+                  H -release-> R;  release needs H (never U, N, R or Idle) on every path, so a pointer is released at most
+                  once;  a held slot that is not released on some path is *abandoned* (legal: the count is not advanced
+                  and the next acquire re-initialises the slot — the `if (alpha == 0) continue;` idiom), but an acquire
+                  site from which no path reaches a release loses its geom on every execution
   lights          the same bound for `P->lights`: an alias `P->lights + P->nlight` is formed only where
                   `P->nlight < K` (K <= declared extent) is known on the path
 """
@@ -651,8 +651,7 @@ class PairRule(paths.Rule):
             site = (r.get("line"), r.get("off"))
             ctx.sites.setdefault(site, {"line": r.get("line"), "var": lhs, "released": False, "abandoned": []})
             if old is not None and old[1] == "H":
-                ctx.report(node, f"`{lhs}` still holds the geom acquired at line {old[2][0]} (never released) when it is "
-                           f"acquired again: that geom is lost", kind="P-leak", site=old[2])
+                ctx.sites[old[2]]["abandoned"].append("reacquire")
             return self._drop(state, lhs) | {(lhs, "U", site)}
         if r is not None and r.get("k") == "DeclRefExpr":
             src = self._find(state, cir.text(r))
@@ -725,8 +724,8 @@ class PairRule(paths.Rule):
             if x is not None and x.get("k") == "UnaryOperator" and x.get("op") == "&":
                 y = cir.strip(cir.kids(x)[0])
                 if y is not None and self._find(state, cir.text(y)) is not None and name not in self.acquires:
-                    raise AnalysisError(f"{ctx.fn.get('n')}: address of geom pointer `{cir.text(y)}` passed to {name}() at "
-                                        f"{ctx.where(node)}; not a known release function")
+                    # undecidable unless `name` turns out to be a release wrapper (caller re-runs to a fixpoint)
+                    ctx.escapes.add((name, cir.text(y), ctx.where(node)))
         return state
 
     def use(self, state, node, ctx):
@@ -765,8 +764,7 @@ class PairRule(paths.Rule):
     def _end(self, state, node, ctx, how):
         for e in state:
             if e[1] == "H":
-                ctx.report(node, f"the geom acquired into `{e[0]}` at line {e[2][0]} reaches the {how} without being "
-                           f"released: it is not counted in the scene", kind="P-leak", site=e[2])
+                ctx.sites[e[2]]["abandoned"].append("end")
         ps = {e[1] for e in state if e[1] in ("P", "Q")}
         ctx.param_exit |= ps
 
@@ -799,7 +797,7 @@ def pairing(unit, acquires, releases):
         rule = PairRule(acquires, releases, last)
         ex = JumpExplorer(rule, unit, fn)
         ctx = ex.ctx
-        ctx.sites, ctx.release_calls, ctx.param_exit = {}, {}, set()
+        ctx.sites, ctx.release_calls, ctx.param_exit, ctx.escapes = {}, {}, set(), set()
         ex.run()
         wrapper = None
         if ctx.param_exit == {"Q"}:
@@ -814,7 +812,7 @@ def pairing(unit, acquires, releases):
         for i, (rs, s) in enumerate(sorted(ctx.release_calls.items(), key=lambda kv: (kv[0][0] or 0, kv[0][1] or 0))):
             rel.append({"ord": i + 1, "rsite": rs, "line": s["line"], "callee": s["callee"]})
         out[name] = {"file": fn.get("file") or unit.tu, "line": fn.get("line"), "sites": sites, "release_calls": rel,
-                     "reports": ctx.reports, "wrapper": wrapper}
+                     "reports": ctx.reports, "wrapper": wrapper, "escapes": sorted(ctx.escapes)}
     return out
 
 
